@@ -133,70 +133,224 @@ theorem eqTo_len (x : Index) (E : Externals) (now : Int) (ordered : Bool) (other
   refine ⟨by rw [h1], ?_⟩
   unfold neTo; rw [h1]; rfl
 
-/-- `!=` is the negation of `==` -/
-theorem neTo_not (x : Index) (E : Externals) (now : Int) (ordered : Bool) (other : List (PyVal × PyVal)) :
-    ∃ b, (x.eqTo E now ordered other).2 = .bool b ∧ (x.neTo E now ordered other).2 = .bool (!b) := by
-  have key : ∃ x1 b, x.eqTo E now ordered other = (x1, .bool b) := by
-    unfold eqTo
-    split
-    · exact ⟨_, _, rfl⟩
-    · cases ordered
-      · exact ⟨_, _, rfl⟩
-      · exact ⟨_, _, rfl⟩
-  obtain ⟨x1, b, hb⟩ := key
-  refine ⟨b, by rw [hb], ?_⟩
-  unfold neTo; rw [hb]
+/-! The views walk the items and look every key up again; a look-up that misses raises KeyError
+(persistent.py: `ItemsView.__iter__` / `Index.__eq__` evaluate `self[key]`), which becomes the
+outcome of the call.  `NoMiss`: the walk of `items()` meets no such key. -/
 
-/-- against an ordered mapping: equal exactly when the items are pairwise equal IN ORDER
-(given that the row counter agrees with what `items()` yields) -/
-theorem eqTo_ordered (x : Index) (E : Externals) (now : Int) (other : List (PyVal × PyVal))
-    (hc : x.cache.count = ((pairs x E now).length : Int)) :
-    (x.eqTo E now true other).2 = .bool (allEqPairs (pairs x E now) other) := by
-  unfold eqTo
-  by_cases hn : x.cache.count = (other.length : Int)
-  · have hlen : (pairs x E now).length = other.length := by
-      have := hc.symm.trans hn
-      exact Int.ofNat.inj this
-    simp only [hn, bne_self_eq_false, Bool.false_eq_true, if_false, if_true]
-    exact congrArg Out.bool (seq_zip_any_eq (pairs x E now) other hlen)
-  · have hne : (x.cache.count != (other.length : Int)) = true := by simpa using hn
-    have hf : allEqPairs (pairs x E now) other = false := by
-      cases hb : allEqPairs (pairs x E now) other
-      · rfl
-      · exfalso; apply hn; rw [hc, seq_allEqPairs_length _ _ hb]
-    rw [if_pos hne, hf]
+/-- the walk of the item view misses no key -/
+def NoMiss (x : Index) (E : Externals) (now : Int) : Prop := (x.items E now).2.isExc = false
 
-/-- against an unordered mapping: equal exactly when every item of the index has its key in
-`other` with an equal value (lengths being equal) -/
-theorem eqTo_unordered (x : Index) (E : Externals) (now : Int) (other : List (PyVal × PyVal))
+theorem items_walk (x : Index) (E : Externals) (now : Int) :
+    (x.items E now).2 = if (itemsWalk E now x.cache.rows x.cache []).2.2 then .exc "KeyError"
+      else .list (itemsWalk E now x.cache.rows x.cache []).2.1 := rfl
+
+theorem noMiss_walk (x : Index) (E : Externals) (now : Int) (hm : NoMiss x E now) :
+    (itemsWalk E now x.cache.rows x.cache []).2.2 = false ∧
+    pairs x E now = pairsOf (itemsWalk E now x.cache.rows x.cache []).2.1 := by
+  unfold NoMiss pairs at *
+  rw [items_walk] at hm ⊢
+  cases hw : (itemsWalk E now x.cache.rows x.cache []).2.2 with
+  | true => rw [hw] at hm; cases hm
+  | false => exact ⟨rfl, rfl⟩
+
+/-- a miss is the outcome of the whole call: `items()` KeyError, then `values()` KeyError -/
+theorem values_propagates_miss (x : Index) (E : Externals) (now : Int) (e : String)
+    (h : (x.items E now).2 = .exc e) : (x.values E now).2 = .exc e := by
+  unfold values
+  cases hq : x.items E now with
+  | mk x1 o =>
+    rw [hq] at h
+    simp only at h
+    subst h
+    rfl
+
+/-- what `==` returns in general: the comparison of the items walked, or KeyError when the walk
+ended in a miss before any unequal pair -/
+theorem eqTo_walk (x : Index) (E : Externals) (now : Int) (ordered : Bool) (other : List (PyVal × PyVal))
     (hc : x.cache.count = (other.length : Int)) :
-    (x.eqTo E now false other).2 = .bool ((pairs x E now).all (fun kv =>
-      match other.find? (fun p => pyEq kv.1 p.1) with
-      | some p => pyEq kv.2 p.2
-      | none => false)) := by
+    ∃ b, (b = if ordered then
+            !((pairsOf (itemsWalk E now x.cache.rows x.cache []).2.1).zip other).any
+              (fun p => !pyEq p.1.1 p.2.1 || !pyEq p.1.2 p.2.2)
+          else (pairsOf (itemsWalk E now x.cache.rows x.cache []).2.1).all (fun kv =>
+            match other.find? (fun p => pyEq kv.1 p.1) with
+            | some p => pyEq kv.2 p.2
+            | none => false)) ∧
+      (x.eqTo E now ordered other).2 =
+        if (itemsWalk E now x.cache.rows x.cache []).2.2 && b then .exc "KeyError" else .bool b := by
+  refine ⟨_, rfl, ?_⟩
   unfold eqTo
   simp only [hc, bne_self_eq_false, Bool.false_eq_true, if_false]
   rfl
 
+/-- `!=` is the negation of `==`; a KeyError of `==` propagates -/
+theorem neTo_not_or_miss (x : Index) (E : Externals) (now : Int) (ordered : Bool) (other : List (PyVal × PyVal)) :
+    (∃ b, (x.eqTo E now ordered other).2 = .bool b ∧ (x.neTo E now ordered other).2 = .bool (!b)) ∨
+    ((x.eqTo E now ordered other).2 = .exc "KeyError" ∧ (x.neTo E now ordered other).2 = .exc "KeyError") := by
+  have key : (∃ x1 b, x.eqTo E now ordered other = (x1, .bool b)) ∨
+      (∃ x1, x.eqTo E now ordered other = (x1, .exc "KeyError")) := by
+    unfold eqTo
+    split
+    · exact .inl ⟨_, _, rfl⟩
+    · cases ordered <;> simp only [Bool.false_eq_true, if_false, if_true] <;> split <;>
+        first | exact .inr ⟨_, rfl⟩ | exact .inl ⟨_, _, rfl⟩
+  rcases key with ⟨x1, b, hb⟩ | ⟨x1, hb⟩
+  · refine .inl ⟨b, by rw [hb], ?_⟩
+    unfold neTo; rw [hb]
+  · refine .inr ⟨by rw [hb], ?_⟩
+    unfold neTo; rw [hb]
+
+/- STATEMENT BEFORE THE CHANGE OF `Index.eqTo` (a look-up of the walk that misses now raises KeyError
+as in persistent.py) — false on a miss (`eqTo_needs_nomiss` below); `neTo_not_or_miss` is the general
+form:
+
+theorem neTo_not : ∃ b, (x.eqTo E now ordered other).2 = .bool b ∧ (x.neTo E now ordered other).2 = .bool (!b) -/
+
+/-- `!=` is the negation of `==` -/
+theorem neTo_not (x : Index) (E : Externals) (now : Int) (ordered : Bool) (other : List (PyVal × PyVal))
+    (hm : NoMiss x E now) -- added: the walk misses no key (otherwise both raise KeyError)
+    : ∃ b, (x.eqTo E now ordered other).2 = .bool b ∧ (x.neTo E now ordered other).2 = .bool (!b) := by
+  rcases neTo_not_or_miss x E now ordered other with h | ⟨h, -⟩
+  · exact h
+  · exfalso
+    by_cases hc : x.cache.count = (other.length : Int)
+    · obtain ⟨b, -, hb⟩ := eqTo_walk x E now ordered other hc
+      rw [(noMiss_walk x E now hm).1] at hb
+      rw [hb] at h
+      simp at h
+    · rw [(eqTo_len x E now ordered other hc).1] at h
+      cases h
+
+/-- against an ordered mapping: equal exactly when the items are pairwise equal IN ORDER
+(given that the row counter agrees with what `items()` yields) -/
+theorem eqTo_ordered (x : Index) (E : Externals) (now : Int) (other : List (PyVal × PyVal))
+    (hc : x.cache.count = ((pairs x E now).length : Int))
+    (hm : NoMiss x E now) -- added: the walk misses no key (`eqTo_needs_nomiss`)
+    : (x.eqTo E now true other).2 = .bool (allEqPairs (pairs x E now) other) := by
+  obtain ⟨hw, hp⟩ := noMiss_walk x E now hm
+  by_cases hn : x.cache.count = (other.length : Int)
+  · have hlen : (pairs x E now).length = other.length := by
+      have := hc.symm.trans hn
+      exact Int.ofNat.inj this
+    obtain ⟨b, hb, he⟩ := eqTo_walk x E now true other hn
+    rw [he, hw, hb]
+    simp only [Bool.false_and, Bool.false_eq_true, if_false, if_true, ← hp]
+    exact congrArg Out.bool (seq_zip_any_eq (pairs x E now) other hlen)
+  · have hf : allEqPairs (pairs x E now) other = false := by
+      cases hb : allEqPairs (pairs x E now) other
+      · rfl
+      · exfalso; apply hn; rw [hc, seq_allEqPairs_length _ _ hb]
+    rw [(eqTo_len x E now true other hn).1, hf]
+
+/-- against an unordered mapping: equal exactly when every item of the index has its key in
+`other` with an equal value (lengths being equal) -/
+theorem eqTo_unordered (x : Index) (E : Externals) (now : Int) (other : List (PyVal × PyVal))
+    (hc : x.cache.count = (other.length : Int))
+    (hm : NoMiss x E now) -- added: the walk misses no key (`eqTo_needs_nomiss`)
+    : (x.eqTo E now false other).2 = .bool ((pairs x E now).all (fun kv =>
+      match other.find? (fun p => pyEq kv.1 p.1) with
+      | some p => pyEq kv.2 p.2
+      | none => false)) := by
+  obtain ⟨hw, hp⟩ := noMiss_walk x E now hm
+  obtain ⟨b, hb, he⟩ := eqTo_walk x E now false other hc
+  rw [he, hw, hb]
+  simp only [Bool.false_and, Bool.false_eq_true, if_false, ← hp]
+
 /-- an index equals the ordered mapping of its own items (no NaN among keys and values) -/
 theorem eqTo_ordered_self (x : Index) (E : Externals) (now : Int)
     (hc : x.cache.count = ((pairs x E now).length : Int))
-    (hn : ∀ kv ∈ pairs x E now, pyEq kv.1 kv.1 = true ∧ pyEq kv.2 kv.2 = true) :
-    (x.eqTo E now true (pairs x E now)).2 = .bool true := by
-  rw [eqTo_ordered x E now _ hc, seq_allEqPairs_self _ hn]
+    (hn : ∀ kv ∈ pairs x E now, pyEq kv.1 kv.1 = true ∧ pyEq kv.2 kv.2 = true)
+    (hm : NoMiss x E now) -- added: the walk misses no key
+    : (x.eqTo E now true (pairs x E now)).2 = .bool true := by
+  rw [eqTo_ordered x E now _ hc hm, seq_allEqPairs_self _ hn]
 
 /-- order matters against an ordered mapping: two different keys swapped compare unequal -/
 theorem eqTo_ordered_swap (x : Index) (E : Externals) (now : Int) (a b : PyVal × PyVal) (rest : List (PyVal × PyVal))
     (hp : pairs x E now = a :: b :: rest) (hc : x.cache.count = ((pairs x E now).length : Int))
     (hab : pyEq a.1 b.1 = false) :
     (x.eqTo E now true (b :: a :: rest)).2 = .bool false := by
-  rw [eqTo_ordered x E now _ hc, hp]
+  have hm : NoMiss x E now := by
+    unfold NoMiss
+    unfold pairs at hp
+    cases ho : (x.items E now).2 <;> first | rfl | (rw [ho] at hp; cases hp)
+  rw [eqTo_ordered x E now _ hc hm, hp]
   simp [allEqPairs, hab]
 
 /-- the value view is the second components of the item view -/
-theorem values_spec (x : Index) (E : Externals) (now : Int) :
-    (x.values E now).2 = .list ((Fanout.outList (x.items E now).2).filterMap
+theorem values_spec (x : Index) (E : Externals) (now : Int)
+    (hm : NoMiss x E now) -- added: the walk misses no key (otherwise `values_propagates_miss`)
+    : (x.values E now).2 = .list ((Fanout.outList (x.items E now).2).filterMap
       (fun t => match t with | .tup [_, v] => some v | _ => none)) := by
-  rfl
+  unfold NoMiss at hm
+  unfold values
+  cases hq : x.items E now with
+  | mk x1 o =>
+    rw [hq] at hm
+    cases o <;> first | rfl | cases hm
+
+/-! ### a value file that is gone -/
+
+/-- `'a'` is bound to a value kept in file 0, and that file is gone -/
+def exGone : Index :=
+  { cache := { rows := [{ rowid := 1, key := .text [97], raw := true, storeT := 0, expT := none, accT := 0,
+                          accN := 0, tag := .null, size := 2, mode := 2, file := some 0, val := .null }],
+               count := 1, size := 2, nfile := 1, cfg := { policy := .none } } }
+
+/-- the outcome of `list(index.items())` is the KeyError of the look-up that misses (the value file of
+the only item is gone), and so for `values()`, `==` and `!=`; the keys are still listed -/
+theorem items_propagates_miss :
+    (match (exGone.items Cache.exE 0).2 with | .exc "KeyError" => true | _ => false) = true ∧
+    (match (exGone.values Cache.exE 0).2 with | .exc "KeyError" => true | _ => false) = true ∧
+    (match (exGone.eqTo Cache.exE 0 true [(.str [97], .bytes [1, 2])]).2 with
+      | .exc "KeyError" => true | _ => false) = true ∧
+    (match (exGone.neTo Cache.exE 0 false [(.str [97], .bytes [1, 2])]).2 with
+      | .exc "KeyError" => true | _ => false) = true ∧
+    (match (exGone.iter Cache.exE true).2 with | .list [.val (.str [97])] => true | _ => false) = true ∧
+    (match (exGone.eqTo Cache.exE 0 true []).2 with | .bool false => true | _ => false) = true := by
+  decide +kernel
+
+/-- with two items, the first readable: a comparison that finds the first pair unequal answers
+`False` before it reaches the missing one; with the first pair equal it raises KeyError; `items()`
+produces nothing but the exception -/
+def exGone2 : Index :=
+  { cache := { rows := [{ rowid := 1, key := .text [97], raw := true, storeT := 0, expT := none, accT := 0,
+                          accN := 0, tag := .null, size := 0, mode := 1, file := none, val := .int 1 },
+                        { rowid := 2, key := .text [98], raw := true, storeT := 0, expT := none, accT := 0,
+                          accN := 0, tag := .null, size := 2, mode := 2, file := some 0, val := .null }],
+               count := 2, size := 2, nfile := 1, cfg := { policy := .none } } }
+
+theorem eqTo_miss_after_unequal :
+    (match (exGone2.eqTo Cache.exE 0 true [(.str [97], .int 2), (.str [98], .int 2)]).2 with
+      | .bool false => true | _ => false) = true ∧
+    (match (exGone2.eqTo Cache.exE 0 false [(.str [97], .int 2), (.str [98], .int 2)]).2 with
+      | .bool false => true | _ => false) = true ∧
+    (match (exGone2.eqTo Cache.exE 0 true [(.str [97], .int 1), (.str [98], .int 2)]).2 with
+      | .exc "KeyError" => true | _ => false) = true ∧
+    (match (exGone2.eqTo Cache.exE 0 false [(.str [97], .int 1), (.str [98], .int 2)]).2 with
+      | .exc "KeyError" => true | _ => false) = true ∧
+    (match (exGone2.items Cache.exE 0).2 with | .exc "KeyError" => true | _ => false) = true := by
+  decide +kernel
+
+/-- `NoMiss` is necessary in `neTo_not`, `eqTo_unordered`, `values_spec` (the Index whose value file
+is gone) and in `eqTo_ordered` / `eqTo_ordered_self` (same rows, a row counter of 0, which the
+hypothesis `hc` of those two forces when `items()` raises) -/
+theorem eqTo_needs_nomiss :
+    (¬ ∃ b, (exGone.eqTo Cache.exE 0 false [(.str [97], .int 1)]).2 = .bool b) ∧
+    exGone.cache.count = (([(.str [97], .int 1)] : List (PyVal × PyVal)).length : Int) ∧
+    (¬ ∃ l, (exGone.values Cache.exE 0).2 = .list l) ∧
+    (let x : Index := { cache := { exGone.cache with count := 0 } }
+     x.cache.count = ((pairs x Cache.exE 0).length : Int) ∧
+     ¬ ∃ b, (x.eqTo Cache.exE 0 true (pairs x Cache.exE 0)).2 = .bool b) := by
+  have h1 : (exGone.eqTo Cache.exE 0 false [(.str [97], .int 1)]).2 = .exc "KeyError" := by rfl
+  have h2 : (exGone.values Cache.exE 0).2 = .exc "KeyError" := by rfl
+  refine ⟨?_, rfl, ?_, ?_⟩
+  · rintro ⟨b, hb⟩; rw [h1] at hb; cases hb
+  · rintro ⟨l, hl⟩; rw [h2] at hl; cases hl
+  · have h3 : pairs { cache := { exGone.cache with count := 0 } } Cache.exE 0 = [] := by rfl
+    have h4 : (({ cache := { exGone.cache with count := 0 } } : Index).eqTo Cache.exE 0 true []).2 =
+        .exc "KeyError" := by rfl
+    simp only
+    rw [h3]
+    refine ⟨rfl, ?_⟩
+    rintro ⟨b, hb⟩; rw [h4] at hb; cases hb
 
 end DC.Index
